@@ -371,6 +371,28 @@ Theorem c16_completed_no_call_in_last_frames :
 Proof. exact completed_no_call_in_last_frames. Qed.
 Print Assumptions c16_completed_no_call_in_last_frames.
 
+(* the converse — nothing from nothing.  Every call an iteration drains (hence every call it executes and every call id
+   the next request answers: c16_at_most_once_exec, c16_answered_once_by_call_id) carries a call id that a function_call
+   item of an output_item.added / output_item.done event of the SAME answer carries (the done item itself or an earlier
+   added event of the item) ... *)
+Theorem c16_drained_call_was_announced :
+  forall g valid tool prompt init script i it c,
+  nth_error (res_iters (run g valid tool prompt init script)) i = Some it -> In c (it_calls it) ->
+  exists rd ev, nth_error script i = Some rd /\ In ev (r_events rd) /\ carries ev (c_id c).
+Proof. exact drained_call_was_announced. Qed.
+Print Assumptions c16_drained_call_was_announced.
+
+(* ... and from the body: that event is a provider-event frame of answer i in the session stream *)
+Theorem c16_drained_call_in_frames :
+  forall (A : SseJson.absfns) g valid tool prompt init (bodies : list bround) i it c (off : N),
+  nth_error (res_iters (run_b A OBS_BOTH g valid tool prompt init bodies)) i = Some it -> In c (it_calls it) ->
+  exists b s ev raw d errs rerrs,
+    nth_error bodies i = Some b /\
+    In (Sse.FProv s 2 ev raw (Some d) errs rerrs) (Sse.frames_of (SseJson.jclassify A) Sse.FIXED off (bb_chunks b)) /\
+    carries d (c_id c).
+Proof. exact drained_call_in_frames. Qed.
+Print Assumptions c16_drained_call_in_frames.
+
 (* a pipe whose finish() logs the flushed events without feeding the collector (OBS_PUSH_ONLY) violates both: the
    CRLF body cut between the CR and the LF of its final blank line has the call in frame 1 of answer 0, nothing is
    drained and the run "completes" after one request *)
